@@ -207,6 +207,8 @@ func main() {
 		cmdRerun(os.Args[2:])
 	case "rec":
 		cmdRec(os.Args[2:])
+	case "split":
+		cmdSplit(os.Args[2:])
 	default:
 		die(2, "unknown command %s", os.Args[1])
 	}
